@@ -49,12 +49,10 @@ def opts : P Opts := do
 
 def step : P Step := do
   let k ← nat
-  if k = 0 then do
-    let pre ← path; let src ← path; let dst ← path; let cur ← list path
-    pure (.change pre src dst cur)
-  else do
-    let cur ← list path
-    pure (.regen cur)
+  match k with
+  | 0 => do let pre ← path; let src ← path; let dst ← path; pure (.begin pre src dst)
+  | 1 => do let cur ← list path; pure (.finish cur)
+  | _ => do let cur ← list path; pure (.regen cur)
 
 def encList {α} (f : α → List Nat) (l : List α) : List Nat := l.length :: l.flatMap f
 def encNats (l : List Nat) : List Nat := l.length :: l
